@@ -104,5 +104,40 @@ def post(run):
         core.evaluate(run, inp, label="stress")
     finally:
         run.drive = old
+    kernel_cross_check(run)
     run.cov.setdefault("extra", {})["stress_note"] = ("stream 'stress': real interleavings with 3 concurrent store clients, "
                                                        "-race build; a data race makes the driver exit non-zero (reported as a violation)")
+
+
+def kernel_cross_check(run):
+    """Secondary path of DESIGN 2.4: up to 150 sampled cases (what the implementation answered) are written as Coq
+    terms and re-evaluated with vm_compute by coqc (Model.Pop3.case_ok): cross-checks the extracted OCaml model
+    and the runner's parsing against the kernel's evaluation of the same definitions."""
+    import os, re
+    from vcheck import core
+    casesp = os.path.join(run.dir, "main.cases.txt")
+    if not os.path.exists(casesp):
+        return
+    sub = os.path.join(run.dir, "kernel.cases.txt")
+    with open(sub, "w") as f:
+        for i, l in enumerate(open(casesp)):
+            if (i < 16 or i % 7 == 0) and len(l) < 3000:
+                f.write(l)
+    vfile = os.path.join(run.dir, "cases_C13.v")
+    if os.path.exists(vfile):
+        os.remove(vfile)
+    env = dict(os.environ, C13_COQ_CASES=vfile)
+    rc, o = core.sh(["bash", "-c", "ulimit -s unlimited 2>/dev/null; exec %s" % run.modelrun], timeout=300,
+                    stdin_path=sub, stdout_path=os.path.join(run.dir, "kernel.model.txt"), env=env, cwd=run.dir)
+    info = {"ran": False}
+    if rc == 0 and os.path.exists(vfile):
+        with core.Lock("coq"):
+            rc2, o2 = core.sh(["coqc", "-Q", core.COQ, "IV", vfile], timeout=900, cwd=run.dir)
+        m = re.search(r"\(\* (\d+) cases \*\)", open(vfile).read())
+        info = {"ran": True, "ok": rc2 == 0, "cases": int(m.group(1)) if m else None}
+        if rc2 != 0:
+            run.violation("correspondence", {"what": "in-kernel re-evaluation (vm_compute) of sampled C13 cases disagrees with the extracted model / the implementation",
+                                             "output": o2[-2000:], "file": vfile}, False)
+    else:
+        run.notes.append("kernel cross-check not run: modelrun rc=%s %s" % (rc, o[-200:]))
+    run.cov.setdefault("extra", {})["kernel_cross_check"] = info
